@@ -109,6 +109,9 @@ def gen_params(rng, tier):
         cols[c] = [rng.random() < 0.5 for _ in range(n)]
     for c in TIME_COLS:
         cols[c] = [rng.randint(-100, 900) for _ in range(n)]  # hours from 2020-01-01
+    if n and rng.random() < 0.15:
+        # a missing timestamp (NaT): converted to 0 ns (1970-01-01) like every other row is converted on its own
+        cols["yt"][rng.randrange(n)] = None
     present = list(ALL_COLS)
     ta_mode = rng.choice(["none", "none", "none", "name", "name", "guess"])
     if ta_mode == "guess":
@@ -184,7 +187,7 @@ def make_frame(p):
         elif c in BOOL_COLS:
             data[c] = np.array(v, dtype=bool)
         else:
-            data[c] = pd.to_datetime(np.array([T0 + h * HOUR for h in v], dtype="int64"))
+            data[c] = pd.to_datetime(np.array([np.datetime64("NaT") if h is None else np.datetime64(T0 + h * HOUR, "ns") for h in v], dtype="datetime64[ns]"))
     kind = p["index"]
     if kind == "range":
         idx = None
@@ -205,7 +208,8 @@ def converted_columns(df):
     out = {}
     for c in df.columns:
         if c in TIME_COLS:
-            out[c] = df[c].to_numpy().astype("datetime64[ns]").astype("int64")
+            raw = df[c].to_numpy().astype("datetime64[ns]")
+            out[c] = np.where(np.isnat(raw), 0, raw.astype("int64"))
         else:
             out[c] = df[c].to_numpy()
     return out
